@@ -99,7 +99,7 @@ fn program<T: Elem>(rng: &mut Rng, pages: usize, max_ops: usize, tag_heavy: bool
     }
     let nops = rng.range(1, max_ops);
     for _ in 0..nops {
-        script.push(*rng.pick(if tag_heavy { &b"wwwwrrrcccwrcWX"[..] } else { &b"wwwwrrccccfwrcWWX"[..] }));
+        script.push(*rng.pick(if tag_heavy { &b"wwwwrrrcccwrcWXF"[..] } else { &b"wwwwrrccccfwrcWWXF"[..] }));
     }
     if rng.chance(1, 8) {
         script.push(*rng.pick(b"oC"));
@@ -139,8 +139,21 @@ fn program<T: Elem>(rng: &mut Rng, pages: usize, max_ops: usize, tag_heavy: bool
                     1 => k / 2,
                     _ => k,
                 };
-                for i in 0..k {
-                    wb.slice()[i] = T::from_nat(counter.wrapping_add(i as u128) & mask(T::BITS));
+                // the three ways a block can fill its window
+                match rng.below(3) {
+                    0 => {
+                        for i in 0..k {
+                            wb.slice()[i] = T::from_nat(counter.wrapping_add(i as u128) & mask(T::BITS));
+                        }
+                    }
+                    1 => {
+                        let vals: Vec<T> = (0..k).map(|i| T::from_nat(counter.wrapping_add(i as u128) & mask(T::BITS))).collect();
+                        wb.fill_from_slice(&vals);
+                    }
+                    _ => {
+                        let c0 = counter;
+                        wb.fill_from_iter((0..k).map(move |i| T::from_nat(c0.wrapping_add(i as u128) & mask(T::BITS))));
+                    }
                 }
                 let mut tags = Vec::new();
                 let mut tagreq = String::new();
@@ -269,6 +282,18 @@ fn program<T: Elem>(rng: &mut Rng, pages: usize, max_ops: usize, tag_heavy: bool
                             dead = true;
                         }
                     }
+                }
+            }
+            b'F' => {
+                // more samples than the window has: must be refused, and must not touch the queued samples
+                let mut wb = w.write_buf().unwrap();
+                let len = wb.len();
+                let extra = 1 + rng.below(3);
+                let vals: Vec<T> = (0..len + extra).map(|i| T::from_nat((0xdead_0000u128 + i as u128) & mask(T::BITS))).collect();
+                req += " ; x";
+                match quiet(move || wb.fill_from_slice(&vals)) {
+                    Ok(()) => obs.push("ok".into()),
+                    Err(_) => obs.push("refused".into()),
                 }
             }
             b'o' => {
